@@ -5,7 +5,7 @@ CONSTANTS
   TokModes = {"no", "slow", "fast"}
   MaxPW = 1
   MaxFill = 1
-  AllowShut = TRUE
+  AllowShut = FALSE
   Eager = FALSE
   Strict = FALSE
   Mut = "none"
